@@ -51,29 +51,33 @@ def writeAll (gc : Nat → Nat → α) : Nat → Mat α → Mat α
 
 /-- the part of `coefs` that concerns the interaction matrix: `store` is the caller's matrix
     (`delta_in`, i.e. `FluidMixture.delta`), `gc i j` the group-contribution value for the pair at
-    the temperature of this call.  Returns (matrix used by the mixing rule, caller's matrix after). -/
-def coefsDelta (calcDelta : Bool) (gc : Nat → Nat → α) (nc : Nat) (store : Mat α) : Mat α × Mat α :=
-  -- l.1180 `delta = delta_in`: ONE matrix under two names
+    the temperature of this call.  Returns (matrix used by the mixing rule, caller's matrix after).
+    CODE VARIANT `aliased`: `true` = l.1180 as first read, `delta = delta_in` (ONE matrix under two
+    names, the loops write into the caller's matrix); `false` = repaired, `delta = np.copy(delta_in)`
+    (as the Fortran routine, whose `delta` is a separate output array).  The harness determines the
+    variant of the tree under test and hands it to the driver. -/
+def coefsDelta (aliased : Bool) (calcDelta : Bool) (gc : Nat → Nat → α) (nc : Nat) (store : Mat α) :
+    Mat α × Mat α :=
   if calcDelta then
     let d := writeAll gc nc store
-    (d, d)
+    (d, if aliased then d else store)
   else (store, store)
 
 /-- a property query of a mixture (`FluidMixture.density/fugacity/viscosity`): the library value
     depends on the arguments and on the interaction matrix `coefs` ends up using -/
-def query {β : Type} (eos : Mat α → β) (calcDelta : Bool) (gc : Nat → Nat → α) (nc : Nat)
+def query {β : Type} (eos : Mat α → β) (aliased : Bool) (calcDelta : Bool) (gc : Nat → Nat → α) (nc : Nat)
     (store : Mat α) : β × Mat α :=
-  let r := coefsDelta calcDelta gc nc store
+  let r := coefsDelta aliased calcDelta gc nc store
   (eos r.1, r.2)
 
 /-- a history of queries on ONE mixture object: each entry carries the group-contribution values
     of its temperature and its EOS closure; the object's matrix is threaded through -/
-def runQueries {β : Type} (calcDelta : Bool) (nc : Nat) :
+def runQueries {β : Type} (aliased : Bool) (calcDelta : Bool) (nc : Nat) :
     Mat α → List ((Nat → Nat → α) × (Mat α → β)) → List β × Mat α
   | st, [] => ([], st)
   | st, q :: qs =>
-      let r := query q.2 calcDelta q.1 nc st
-      let rest := runQueries calcDelta nc r.2 qs
+      let r := query q.2 aliased calcDelta q.1 nc st
+      let rest := runQueries aliased calcDelta nc r.2 qs
       (r.1 :: rest.1, rest.2)
 
 -- ------------------------------------------------------------------ ambient.get_values, the depth clamp
@@ -105,14 +109,14 @@ def chunk (n : Nat) : Nat → List Float → List (List Float)
   | 0, _ => []
   | k + 1, l => l.take n :: chunk n k (l.drop n)
 
-/-- `Pur19.coefs n:calcDelta n:nc v:store(row-major) v:gc(row-major)` → `v:used v:storeAfter`
+/-- `Pur19.coefs n:aliased n:calcDelta n:nc v:store(row-major) v:gc(row-major)` → `v:used v:storeAfter`
     `Pur19.get_values zmin zmax v:z` → `v:used v:callerAfter` -/
 def dispatch : Dispatch := fun name args =>
   match name, args with
-  | "Pur19.coefs", [.n c, .n nc, .v st, .v gc] =>
+  | "Pur19.coefs", [.n al, .n c, .n nc, .v st, .v gc] =>
       let S := matOfRows (chunk nc nc st)
       let G := matOfRows (chunk nc nc gc)
-      let r := coefsDelta (α := Float) (c != 0) G nc S
+      let r := coefsDelta (α := Float) (al != 0) (c != 0) G nc S
       some [.v (rowsOfMat nc r.1), .v (rowsOfMat nc r.2)]
   | "Pur19.get_values", [.s zmin, .s zmax, .v z] =>
       let r := getValues (α := Float) zmin zmax z
@@ -226,10 +230,22 @@ def Op.setsNewOil : Op α → Bool
   | .gor _ => true
   | _ => false
 
+/-- is this `update_num_oil_elements`? -/
+def Op.isNumOil : Op α → Bool
+  | .numOilElements _ => true
+  | _ => false
+
 /-- one update call on the object: new parameter, `self.update = False`, possibly
-    `self.new_oil = True`; nothing is recomputed, `q_type` is not revisited -/
-def apply (s : State α O R) (op : Op α) : State α O R :=
-  { s with p := op.onParams s.p, update := false, newOil := s.newOil || op.setsNewOil }
+    `self.new_oil = True`; nothing is recomputed.
+    CODE VARIANT `revisit`: `false` = as first read, `q_type` is chosen in `__init__` only;
+    `true` = repaired, `update_num_oil_elements` re-evaluates the flow-rate convention
+    (`q_type = 1 if num_oil_elements > 0 else 0`) and, if it changed, stores it and sets
+    `self.new_oil = True`. -/
+def apply (revisit : Bool) (s : State α O R) (op : Op α) : State α O R :=
+  let p' := op.onParams s.p
+  let qt := if revisit && op.isNumOil then qTypeOf p' else s.qType
+  { s with p := p', update := false, qType := qt,
+           newOil := s.newOil || op.setsNewOil || decide (qt ≠ s.qType) }
 
 /-- `simulate()` l.415-416: `if not self.update: self._update()` -/
 def refresh (lib : Lib α O R) (s : State α O R) : State α O R :=
@@ -275,22 +291,22 @@ def paramArgs (p : Params Float) : List Arg :=
 def stateArgs (s : State Float (List Float) (List Float)) : List Arg :=
   [bn s.update, bn s.newOil, .n s.qType] ++ paramArgs s.p
 
-def traceOps (s : State Float (List Float) (List Float)) :
+def traceOps (revisit : Bool) (s : State Float (List Float) (List Float)) :
     List (Op Float) → List Arg × State Float (List Float) (List Float)
   | [] => ([], s)
   | op :: ops =>
-      let s' := apply s op
-      let r := traceOps s' ops
+      let s' := apply revisit s op
+      let r := traceOps revisit s' ops
       (stateArgs s' ++ r.1, r.2)
 
-/-- `B19.run z0 d0 n:substance qOil gor x0 y0 u0 phi0 theta0 n:numGas n:numOil n:water n:current n:track
+/-- `B19.run n:revisit z0 d0 n:substance qOil gor x0 y0 u0 phi0 theta0 n:numGas n:numOil n:water n:current n:track
      n:ca n:sizeDist (t:op value)*`
     → state after the constructor (18 args), state after every op (18 args each), then for the
       refreshed object: 18 state args, `v:oil` (the get_oil arguments the cached oil comes from),
       `v:derived`, and the same three groups for the FRESH object `construct (final p ops)` -/
 def dispatch : Dispatch := fun name args =>
   match name, args with
-  | "B19.run", .s z0 :: .s d0 :: .n sub :: .s q :: .s g :: .s x0 :: .s y0 :: .s u0 :: .s phi :: .s th ::
+  | "B19.run", .n rv :: .s z0 :: .s d0 :: .n sub :: .s q :: .s g :: .s x0 :: .s y0 :: .s u0 :: .s phi :: .s th ::
       .n ng :: .n no :: .n w :: .n c :: .n tr :: .n ca :: .n sd :: rest =>
       (parseOps rest).map fun ops =>
         let p : Params Float :=
@@ -298,7 +314,7 @@ def dispatch : Dispatch := fun name args =>
             theta0 := th, numGas := ng, numOil := no, water := w, current := c, track := tr != 0, ca := ca,
             sizeDist := sd }
         let s0 := construct symLib p
-        let tr := traceOps s0 ops
+        let tr := traceOps (rv != 0) s0 ops
         let sr := refresh symLib tr.2
         let sf := construct symLib (final p ops)
         stateArgs s0 ++ tr.1 ++ stateArgs sr ++ [.v (sr.oil.getD []), .v (sr.derived.getD [])] ++
